@@ -667,7 +667,30 @@ def sum_dropping_zero(c):
     gs = [c.guard_desc(g) for g in c.guards_of(i)]
     nz = any(d[0] == "bool" and d[2] is True and d[1][0][0] == "binop" and d[1][0][1] == "Ne" and ("Add" in ap_str(d[1])) and
              (d[1][0][3][0] == ("const", 0) or d[1][0][2][0] == ("const", 0)) for d in gs)
+    nz = nz or generic_nonzero(c, gs)
     return (is_sum and nz), s
+
+
+def generic_nonzero(c, gs):
+    """The same test in a generic merge helper (`V: Copy + Default + PartialEq + Add<Output = V>`): `sum != V::default()`, where
+    every type the helper is used with for V is a machine integer (whose default is 0)."""
+    import cg
+    import facts as _f
+    F = _f.CURRENT
+    if F is None:
+        return False
+    root = (c.raw.get("root") or {}).get("id", c.id)
+    inst = cg.get(F).inst.get(root)
+    ints = {"i8", "i16", "i32", "i64", "i128", "isize", "u8", "u16", "u32", "u64", "u128", "usize"}
+    if not inst or not (inst & ints) or (inst & {"f32", "f64"}):
+        return False
+    for d in gs:
+        if d[0] == "bool" and d[1][0][0] == "call" and d[1][0][1].endswith(("PartialEq>::ne", "PartialEq::ne")) and d[2] is True and len(d[1][0][2]) == 2:
+            a, b = d[1][0][2]
+            for x, y in ((a, b), (b, a)):
+                if "core::ops::arith::Add" in ap_str(x) and y[0][0] == "call" and y[0][1].endswith(("Default>::default", "Default::default")) and not y[0][2]:
+                    return True
+    return False
 
 
 def factor_shown(chk, F):
